@@ -14,6 +14,20 @@ def run(ctx):
     ctx.cov['rename_table_entries'] = len(consts['patch'])
     with tlc.Workdir() as wd:
         wd.write('Versions_Gen.tla', A.gen_module(consts))
+        # (b) first, clause by clause: a violated clause is a property violation of the tree, not a failure of the machinery
+        base = open(wd.file('MC_Versions_b.cfg')).read()
+        for inv in ('Reg_Consecutive', 'Reg_LoaderForEverySaver', 'Patch_Functional', 'Patch_Terminates', 'Patch_TargetsResolve'):
+            wd.write('MC_Versions_b_%s.cfg' % inv, base + 'INVARIANT %s\n' % inv)
+            rb = tlc.run_tlc(wd, 'MC_Versions.tla', 'MC_Versions_b_%s.cfg' % inv, workers=1, timeout=600)
+            ctx.cov['states'] += rb.distinct
+            if rb.violated_invariant == inv or 'invariant of %s is equal to FALSE' % inv in rb.out:
+                ctx.report(core.Divergence({'spec': 'Versions/registries', 'clause': inv, 'witness': A.witness(inv, consts)}, 0, inv, 'TRUE',
+                                           'FALSE: ' + str(A.witness(inv, consts))[:400], kind='registry:' + inv))
+                # the combined run below would stop at this clause: repair the constants for it so that the rest is still checked
+                consts = A.without(inv, consts)
+                wd.write('Versions_Gen.tla', A.gen_module(consts))
+            elif not rb.ok:
+                raise core.MachineryFailure('MC_Versions_b %s failed:\n%s' % (inv, rb.out[-1500:]))
         res, g = tlc.dump_graph(wd, 'MC_Versions.tla', 'MC_Versions.cfg', timeout=3000)
         # dump_graph raises if an invariant fails; re-run plainly to tell which
         ctx.add_tlc('E0 MC_Versions.cfg (VersionedDict + registries + rename table)', res, 'MC_Versions.cfg')
@@ -42,6 +56,25 @@ def run(ctx):
                                            kind='patch_capture'))
         elif not res2.ok:
             raise core.MachineryFailure('MC_Versions_capture failed:\n' + res2.out[-1500:])
+        # (c) what each version pair carries
+        vcfg = 'MC_VersionContent_quick.cfg' if ctx.tier == 'quick' else 'MC_VersionContent_thorough.cfg'
+        res3, chunks = tlc.dump_states(wd, 'MC_VersionContent.tla', vcfg, timeout=3000)
+        ctx.add_tlc('E0+generation ' + vcfg, res3, vcfg)
+        from harness.tlaval import parse_state
+        vitems = []
+        for c in chunks:
+            st = parse_state(c)
+            if st['picked']:
+                vitems.append({'dv': st['cfg']['dv'], 'cv': st['cfg']['cv'], 'F': sorted(st['cfg']['F']), 'exp': sorted(st['exp'])})
+    if len(set((v['dv'], v['cv']) for v in vitems)) < 20:
+        raise core.MachineryFailure('vacuous: only %d version pairs enumerated' % len(set((v['dv'], v['cv']) for v in vitems)))
+    r = core.sharded('harness.adapters.vercontent', 'replay_chunk', vitems)
+    ctx.add_replayed(len(vitems), len(vitems), sum(1 for v in vitems if len(v['exp']) >= 2))
+    ctx.cov['version_content_configurations'] = len(vitems)
+    for x in r:
+        for d in x['div']:
+            ctx.report(core.Divergence.from_json(d))
+    ctx.sample(vitems[len(vitems) // 2])
     bad, n = A.pinned_roundtrips()
     ctx.add_replayed(n, n, n)
     ctx.cov['version_pairs_roundtripped'] = n
@@ -58,6 +91,17 @@ def replay(div):
     from harness.core import use_repo
     use_repo()
     b = div.behaviour
+    if b.get('spec') == 'VersionContent':
+        from harness.adapters import vercontent
+        import warnings
+        warnings.simplefilter('ignore')
+        r = vercontent.check_one(b['dv'], b['cv'], b['F'], b['exp'])
+        if r is None:
+            print('replay: configuration conforms')
+            return 0
+        print('VIOLATION property=C12 replay=(given)')
+        print('  %s: expected %s got %s' % r)
+        return 1
     if b.get('spec') == 'Versions':
         r = A.replay_one(b)
         if r is None:
